@@ -262,6 +262,11 @@ def run(chk, repo):
                     reg_find(hit.targets[0].id, hit.value)
                     fallback = (miss, fb)
     if len(finds) != 1:
+        if not finds and orf_end_candidates(chk, repo, go, lp[0]):
+            from rules.shared import optname
+            chk.clauses.append('C08.g (shared R-THREAD) an option value bound to a name that is itself a CLI option carries that very option')
+            optname(chk, repo, 'C08.g', ['cli.call_novel_orf'], floor=0)
+            return
         raise AnalysisError(f"anchor={ORFS}: stop-codon search `<seq>[start:].find('*')` not found")
     nm, base, lo, up = finds[0]
     want = Aff.sym(f"len({base})") - lo
@@ -297,6 +302,9 @@ def run(chk, repo):
     from rules.shared import optname
     chk.clauses.append('C08.g (shared R-THREAD) an option value bound to a name that is itself a CLI option carries that very option')
     optname(chk, repo, 'C08.g', ['cli.call_novel_orf'], floor=0)
+    from rules.C10 import rule_thread
+    chk.clauses.append('C08.h (shared R-THREAD, with C01.h / C04.g / C06.e / C10.d) the canonical pool that is subtracted is digested with the resolved cleavage parameters (exception name normalised, not the raw --cleavage-exception value)')
+    rule_thread(chk, repo, 'C08.h', quals=('cli.common:load_references',))
     # ------------------------------------------------------------------ h: --orf-assignment decides attribution only
     from sa import sem as _sem8
     chk.rule('C08.h', 'R-OPTION scope: the ORF-assignment strategy never guards the start-site search, the staging of cursors or the calling of peptides', 3)
@@ -348,3 +356,42 @@ def run(chk, repo):
                    "the transcript end are dropped, while the ORF FASTA (get_orf_sequences) still lists that ORF to the end", key=fq + '::mrna_end_nf', fn=fn_.qual)
 
 
+
+
+
+def orf_end_candidates(chk, repo, go, loop) -> bool:
+    """get_orf_sequences without the `.find('*')` search (the end of the ORF is looked up some other way): the listed sequence is
+    the one bounded slice <translation>[a:b] in the loop; every value b can take is either a looked-up position (a subscript - an
+    element of a table of stop positions) or the fall-back for "no stop codon downstream", which must be the length of THAT
+    translation (frames 1 and 2 have fewer codons than len(tx) // 3).  Returns False when the shape is not recognised."""
+    from sa import sem
+    sls = [n for n in ast.walk(loop) if isinstance(n, ast.Subscript) and isinstance(n.slice, ast.Slice) and n.slice.upper is not None and n.slice.lower is not None
+           and isinstance(n.ctx, ast.Load) and isinstance(n.value, ast.Name)]
+    sls = [n for n in sls if 'translate' in n.value.id]
+    if len(sls) != 1:
+        return False
+    sl = sls[0]
+    st = repo.enclosing_stmt(sl)
+    base = sl.value.id
+    ch = sem.block_chains(go.node)
+    e = sem.expand_names(go.node, st, sl.slice.upper, chains=ch, depth=1)
+
+    def cands(x):
+        if isinstance(x, ast.IfExp):
+            return cands(x.body) + cands(x.orelse)
+        return [x]
+    cs = cands(e)
+    if len(cs) < 2:
+        return False
+    bad = []
+    for c in cs:
+        if isinstance(c, ast.Subscript):
+            continue          # an element of a position table
+        c2 = unparse(sem.expand_names(go.node, st, c, chains=ch, depth=3))
+        if c2 not in (f"len({base}.seq)", f"len({base})"):
+            bad.append(c2)
+    chk.ob('C08.f', 'without a stop codon downstream the ORF ends at the length of the translation it is cut from', repo.loc(go, sl), not bad,
+           f"the end of the listed slice of `{base}` falls back to {bad}: not the length of that translation - for an ORF running to the transcript end the header "
+           "end coordinate differs from start + 3 * len(sequence) (frames 1 and 2 have fewer codons than len(tx) // 3 whenever len(tx) % 3 < frame)",
+           key=f"{ORFS}::no-stop-length", fn=go.qual)
+    return True
